@@ -373,7 +373,8 @@ def run(ctx: core.Ctx):
                 'channel mappings with dropped channels, measurements, identifiers; dyadic numbers, power-of-two segment '
                 'lengths so float arithmetic is exact), all nestings of depth <= 3 over two atoms, and a single-fault '
                 'malformed stream; a quarter of the random cases use the integer channel ids 0, 1, 2 with renamings between integer and '
-                'string names; function templates whose expression is the time variable itself; mappings below an iteration that re-define '
+                'string names; function templates whose expression is the time variable itself; a family of piecewise constant pieces with decimal '
+                'durations repeated / sequenced at the top level and sampled exactly on the piece boundaries float(k*d); mappings below an iteration that re-define '
                 'the loop index, with repetition / sequence levels below (generator option and a dedicated family); a family '
                 'of time-reversed atomic pulses under time-dependent (affine in t) scalar arithmetic / parallel-channel values, '
                 'judged against denote of the atomic pulse at dur - t combined with the exactly evaluated operand; a scope entry literally called t (a renamed '
